@@ -48,6 +48,8 @@ def run(ctx):
     D.rule_declared_length(res, "C01-R4", dm)
     D.rule_segment_ends_walk(res, "C01-R4", dm)
     D.rule_segment_plumbing(res, "C01-R4", dm)
+    D.rule_loop_typestate(res, "C01-R4", dm)  # each segment case does its part on the endpoint's entry: a first segment opens a fresh one, delivery releases it
+    D.rule_first_restart(res, "C01-R4", dm)
     from rules import c04
     for o in c04.run(ctx).obligations:
         if (o["rule"] == "C04-R3" and o["key"].startswith(("error-bits", "invalid-only-for-protocol-reasons"))) or \
@@ -67,7 +69,7 @@ def run(ctx):
     # repeated), else the segments of a message that straddles the irregular step are rejected and the message is never delivered (C09-R1/R2)
     res.rule("C01-R9", "consecutive frame counters: every pushed frame is stamped with the pre-incremented 16-bit counter, whose only writers are that "
                         "increment and the resets (shared with C09-R1/R2) — the decoder accepts a continuation only at counter + 1 mod 2^16")
-    E.rule_counter_writers(res, "C01-R9", m)
+    E.rule_counter_writers(res, "C01-R9", m, reported=False)
     E.rule_frame_stamped(res, "C01-R9", m)
     res.floor("C01-R9", 3)
     res.floor("C01-R1", 1, n1)
